@@ -15,6 +15,8 @@ import Rmk.Impl.Heap
 import Rmk.Impl.ByteLength
 import Rmk.Impl.Iters
 import Rmk.Impl.Elem
+import Rmk.Impl.ObjTree
+import Rmk.Impl.ClassTree
 import Rmk.Impl.UintExtra
 import Rmk.Impl.DeserWork
 import Rmk.Impl.DeserTree
@@ -117,6 +119,7 @@ def runVal (t : Ty) (v : Val) : String :=
     kv "i.iter" (optStr valStr (n.bind (iterRead t))),
     kv "i.dec" (optStr (fun (p : Val × List UInt8) => valStr p.1 ++ "/" ++ toString p.2.length) dec),
     kv "s.obj" (if wt then Obj.toJson (Obj.toObj t v) else "-"),
+    kv "i.objtree" (if wt then optStr Obj.toJson (n.bind (Impl.toObjTree H t)) else "-"),
     kv "i.fromobj" (if wt then optStr valStr (Obj.fromObj t (Obj.jsonNorm (Obj.toObj t v))) else "-")]
 
 def runType (t : Ty) : String :=
@@ -699,7 +702,8 @@ def stepPOp (t : Ty) (n : Node) (op : POp) (forks : List Node := []) : Node × S
     -- the iterator is created (the length is read), then the first k items are read in order
     (n, okStr ((viewLen t n).bind fun ln =>
       (Impl.sliceRead H t n 0 (min k ln)).map fun xs => String.intercalate "," (xs.map valStr)))
-  | .obj => (n, okStr ((Impl.readVal H t n).map fun v => Obj.toJson (Obj.toObj t v)))
+  -- `to_obj()` as the library computes it: from the tree, through the iterators and the tree-reading serialiser
+  | .obj => (n, okStr ((Impl.toObjTree H t n).map Obj.toJson))
   | .childroot i => (n, okStr ((Impl.childOf H t n i).map fun (c : Ty × Node) => hexOf (c.2.root H)))
   | .bytes => (n, okStr ((Impl.serTree H t n).map fun p => hexOf p.1))
   | .root => (n, "ok:" ++ hexOf (n.root H))
@@ -780,6 +784,29 @@ def runVirt (t : Ty) (v : Val) (ops : List POp) : String :=
   | none => "i.ctor=err"
   | some n => join ([kv "i.root" (hexOf (n.root H))] ++ runPOps t n ops "ic")
 
+/-- `(cls (bases <cls>*) (name idx)*)`: a container class with its bases and its own annotations (types by table index) -/
+partial def toCls : Sexp → Option (Impl.Cls Nat)
+  | .list (.atom "cls" :: .list (.atom "bases" :: bs) :: anns) => do
+    let bases ← bs.mapM toCls
+    let ann ← anns.mapM fun a =>
+      match a with
+      | .list [.atom k, i] => (atomNat i).map fun i => (k, i)
+      | _ => none
+    pure (.mk bases ann)
+  | _ => none
+
+/-- `inh`: the fields of the class (`Cls.fields`), then the type facts and the value facts of the FLATTENED container -/
+def runInh (tys : List Ty) (vals : List Val) (c : Impl.Cls Nat) : String :=
+  if !c.buildable then kv "i.fields" "err" else
+  let fl := c.fields
+  let fts := fl.filterMap fun kv => tys[kv.2]?
+  let fvs := fl.filterMap fun kv => vals[kv.2]?
+  let t : Ty := .container fts
+  join [
+    kv "i.fields" (String.intercalate "," (fl.map fun kv => kv.1 ++ ":" ++ toString kv.2)),
+    runType t,
+    runVal t (.seq fvs)]
+
 def toOperand (w v : Sexp) : Option Impl.Operand := do
   let v ← atomInt v
   match w with
@@ -790,6 +817,8 @@ def runCase (xs : List Sexp) : Option String :=
   match xs with
   | [.atom "val", t, v] => do pure (runVal (← toTy t) (← toVal v))
   | [.atom "type", t] => do pure (runType (← toTy t))
+  | [.atom "inh", .list (.atom "types" :: ts), .list (.atom "vals" :: vs), c] => do
+    pure (runInh (← ts.mapM toTy) (← vs.mapM toVal) (← toCls c))
   | .atom "hist" :: t :: v :: ops => do pure (runHist (← toTy t) (← toVal v) (← ops.mapM toHOp))
   | .atom "histf" :: t :: v :: ops => do pure (runHist (← toTy t) (← toVal v) (← ops.mapM toHOp))
   | .atom "histd" :: t :: ops => do
